@@ -76,6 +76,8 @@ struct rprobe {
     bool ready, dead;
     int provide_mode;       /* 0 pass to providers, 1 answer here (C12), 2 swallow */
     bool in_use;
+    bool no_pipe;           /* allocation refused: no pipe ever existed behind this probe */
+    bool forced;            /* the laboratory dropped the references this pipe held on itself (after reporting it) */
 };
 extern struct rprobe lab_probes[LAB_MAX_PIPES];
 extern int lab_nprobes;
